@@ -3,6 +3,7 @@
 package hx
 
 import (
+	"time"
 	"math"
 	"strconv"
 
@@ -29,6 +30,20 @@ func rList(v map[string]*val.Val, n string) []float64 {
 	return out
 }
 func rSec(v map[string]*val.Val, n string) int64 { return v[n].Time().V.Unix() }
+
+// refTimeDiff: `time - time` is the elapsed time in seconds, sub-second part
+// included (whole seconds plus nanoseconds/1e9, both truncated towards zero as
+// time.Duration.Seconds documents).
+func refTimeDiff(t, u time.Time) float64 {
+	ds := t.Unix() - u.Unix()
+	dn := int64(t.Nanosecond()) - int64(u.Nanosecond())
+	if ds > 0 && dn < 0 {
+		ds, dn = ds-1, dn+1000000000
+	} else if ds < 0 && dn > 0 {
+		ds, dn = ds+1, dn-1000000000
+	}
+	return float64(ds) + float64(dn)/1e9
+}
 
 func refEQ(a, b float64) bool { return math.Abs(a-b) < refEps }
 func refNE(a, b float64) bool { return math.Abs(a-b) >= refEps }
@@ -152,7 +167,7 @@ var refProgs = []refProg{
 	{totalProg{"t <= v", []string{"t", "v"}, []*types.Type{tTime, tTime}}, always, func(v map[string]*val.Val) refResult { return rb(rSec(v, "t") <= rSec(v, "v")) }},
 	{totalProg{"t > v", []string{"t", "v"}, []*types.Type{tTime, tTime}}, always, func(v map[string]*val.Val) refResult { return rb(rSec(v, "t") > rSec(v, "v")) }},
 	{totalProg{"t >= v", []string{"t", "v"}, []*types.Type{tTime, tTime}}, always, func(v map[string]*val.Val) refResult { return rb(rSec(v, "t") >= rSec(v, "v")) }},
-	{totalProg{"t - v", []string{"t", "v"}, []*types.Type{tTime, tTime}}, always, func(v map[string]*val.Val) refResult { return rn(float64(rSec(v, "t") - rSec(v, "v"))) }},
+	{totalProg{"t - v", []string{"t", "v"}, []*types.Type{tTime, tTime}}, always, func(v map[string]*val.Val) refResult { return rn(refTimeDiff(v["t"].Time().V, v["v"].Time().V)) }},
 	{totalProg{"get(o, d)", []string{"o", "d"}, []*types.Type{tON, tNum}}, always, func(v map[string]*val.Val) refResult {
 		if p := v["o"].Maybe().V; p != nil {
 			return rn(p.Num().V)
